@@ -17,31 +17,31 @@ open PV.MapRange
 
 def reviewed : List Reviewed := [
   -- line 222: range node.LabelTags   then: SORT:internal/graph.SortTags
-  { site := { file := "internal/graph/dotgraph.go", fn := "builder.addNodelets", mapType := "map[string]*internal/graph.Tag", kind := .append, sink := "append:[]*internal/graph.Tag", sorted := true, returned := false },
+  { site := { file := "internal/graph/dotgraph.go", fn := "builder.addNodelets", mapType := "map[string]*internal/graph.Tag", kind := .append, sink := "append", sorted := true, returned := false },
     verdict := .sortedHere },
   -- line 225: range node.NumericTags   then: SORT:(*internal/graph.builder).numericNodelets
-  { site := { file := "internal/graph/dotgraph.go", fn := "builder.addNodelets", mapType := "map[string]internal/graph.TagMap", kind := .append, sink := "append:[]*internal/graph.Tag (slot keyed by the iteration variable)", sorted := true, returned := false },
+  { site := { file := "internal/graph/dotgraph.go", fn := "builder.addNodelets", mapType := "map[string]internal/graph.TagMap", kind := .append, sink := "append (slot keyed by the iteration variable)", sorted := true, returned := false },
     verdict := .sortedHere },
   -- line 226: range tm   then: SORT:(*internal/graph.builder).numericNodelets
-  { site := { file := "internal/graph/dotgraph.go", fn := "builder.addNodelets", mapType := "map[string]*internal/graph.Tag", kind := .append, sink := "append:[]*internal/graph.Tag (indexed slot)", sorted := true, returned := false },
+  { site := { file := "internal/graph/dotgraph.go", fn := "builder.addNodelets", mapType := "map[string]*internal/graph.Tag", kind := .append, sink := "append (indexed slot)", sorted := true, returned := false },
     verdict := .sortedHere },
   -- line 444: range parentNodeMap   then: return, internal/graph.selectNodesForGraph
-  { site := { file := "internal/graph/graph.go", fn := "newTree", mapType := "map[*internal/graph.Node]internal/graph.NodeMap", kind := .append, sink := "append:internal/graph.Nodes", sorted := false, returned := true },
+  { site := { file := "internal/graph/graph.go", fn := "newTree", mapType := "map[*internal/graph.Node]internal/graph.NodeMap", kind := .append, sink := "append", sorted := false, returned := true },
     verdict := .sortedByConsumer "report.newTrimmedGraph sorts Graph.Nodes (Graph.SortNodes → Nodes.Sort) before every printer; selectNodesForGraph only filters" },
   -- line 530: range s.Label   then: SORT:sort.Strings, return, strings.Join
-  { site := { file := "internal/graph/graph.go", fn := "joinLabels", mapType := "map[string][]string", kind := .append, sink := "append:[]string", sorted := true, returned := true },
+  { site := { file := "internal/graph/graph.go", fn := "joinLabels", mapType := "map[string][]string", kind := .append, sink := "append", sorted := true, returned := true },
     verdict := .sortedHere },
   -- line 574: range nm   then: return
-  { site := { file := "internal/graph/graph.go", fn := "NodeMap.nodes", mapType := "map[internal/graph.NodeInfo]*internal/graph.Node", kind := .append, sink := "append:internal/graph.Nodes", sorted := false, returned := true },
+  { site := { file := "internal/graph/graph.go", fn := "NodeMap.nodes", mapType := "map[internal/graph.NodeInfo]*internal/graph.Node", kind := .append, sink := "append", sorted := false, returned := true },
     verdict := .sortedByConsumer "CreateNodes/newGraph/newTree hand the list to selectNodesForGraph; report.newTrimmedGraph sorts Graph.Nodes before every printer; printTraces uses only the per-location lists (line order)" },
   -- line 725: range n.In   then: fmt.Sprintf, return, strings.Join
-  { site := { file := "internal/graph/graph.go", fn := "Graph.String", mapType := "map[*internal/graph.Node]*internal/graph.Edge", kind := .append, sink := "append:[]int", sorted := false, returned := true },
+  { site := { file := "internal/graph/graph.go", fn := "Graph.String", mapType := "map[*internal/graph.Node]*internal/graph.Edge", kind := .append, sink := "append", sorted := false, returned := true },
     verdict := .notReportOutput "Graph.String is a debugging aid used by the package tests only" },
   -- line 728: range n.Out   then: fmt.Sprintf, return, strings.Join
-  { site := { file := "internal/graph/graph.go", fn := "Graph.String", mapType := "map[*internal/graph.Node]*internal/graph.Edge", kind := .append, sink := "append:[]int", sorted := false, returned := true },
+  { site := { file := "internal/graph/graph.go", fn := "Graph.String", mapType := "map[*internal/graph.Node]*internal/graph.Edge", kind := .append, sink := "append", sorted := false, returned := true },
     verdict := .notReportOutput "Graph.String is a debugging aid used by the package tests only" },
   -- line 918: range n.In   then: 
-  { site := { file := "internal/graph/graph.go", fn := "isRedundantEdge", mapType := "map[*internal/graph.Node]*internal/graph.Edge", kind := .append, sink := "append:internal/graph.Nodes", sorted := false, returned := false },
+  { site := { file := "internal/graph/graph.go", fn := "isRedundantEdge", mapType := "map[*internal/graph.Node]*internal/graph.Edge", kind := .append, sink := "append", sorted := false, returned := false },
     verdict := .orderIrrelevant "breadth-first reachability query: the boolean result does not depend on the visiting order" },
   -- range edges (edgeEntropyScore)   then: SORT:sort.Float64s
   -- Since fixes/C08-entropy-sum-order.patch the -f·log2(f) terms are collected, sorted and only then
@@ -49,34 +49,34 @@ def reviewed : List Reviewed := [
   -- this list): float addition is not associative, so the last ulp of entropyScore — and with weights
   -- around 1e14 the integer int64(score*cum), hence the EntropyOrder position of nodes with equal exact
   -- score and the N-numbering of `-dot` — depended on the map seed (reproduced: strategy entropy-twins).
-  { site := { file := "internal/graph/graph.go", fn := "edgeEntropyScore", mapType := "map[*internal/graph.Node]*internal/graph.Edge", kind := .append, sink := "append:[]float64", sorted := true, returned := false },
+  { site := { file := "internal/graph/graph.go", fn := "edgeEntropyScore", mapType := "map[*internal/graph.Node]*internal/graph.Edge", kind := .append, sink := "append", sorted := true, returned := false },
     verdict := .sortedHere },
   -- line 1124: range e   then: SORT:sort.Sort, return
-  { site := { file := "internal/graph/graph.go", fn := "EdgeMap.Sort", mapType := "map[*internal/graph.Node]*internal/graph.Edge", kind := .append, sink := "append:internal/graph.edgeList", sorted := true, returned := true },
+  { site := { file := "internal/graph/graph.go", fn := "EdgeMap.Sort", mapType := "map[*internal/graph.Node]*internal/graph.Edge", kind := .append, sink := "append", sorted := true, returned := true },
     verdict := .sortedHere },
   -- line 252: range s.NumLabel   then: 
-  { site := { file := "internal/report/report.go", fn := "Report.newGraph", mapType := "map[string][]int64", kind := .append, sink := "append:[]int64 (slot keyed by the iteration variable)", sorted := false, returned := false },
+  { site := { file := "internal/report/report.go", fn := "Report.newGraph", mapType := "map[string][]int64", kind := .append, sink := "append (slot keyed by the iteration variable)", sorted := false, returned := false },
     verdict := .orderIrrelevant "each key is appended exactly once to its own slot of a fresh map" },
   -- line 252: range s.NumLabel   then: 
-  { site := { file := "internal/report/report.go", fn := "Report.newGraph", mapType := "map[string][]int64", kind := .append, sink := "append:[]string (slot keyed by the iteration variable)", sorted := false, returned := false },
+  { site := { file := "internal/report/report.go", fn := "Report.newGraph", mapType := "map[string][]int64", kind := .append, sink := "append (slot keyed by the iteration variable)", sorted := false, returned := false },
     verdict := .orderIrrelevant "each key is appended exactly once to its own slot of a fresh map" },
   -- line 410: range symNodes   then: SORT:sort.Sort
-  { site := { file := "internal/report/report.go", fn := "PrintAssembly", mapType := "map[*internal/report.objSymbol]internal/graph.Nodes", kind := .append, sink := "append:[]*internal/report.objSymbol", sorted := true, returned := false },
+  { site := { file := "internal/report/report.go", fn := "PrintAssembly", mapType := "map[*internal/report.objSymbol]internal/graph.Nodes", kind := .append, sink := "append", sorted := true, returned := false },
     verdict := .sortedHere },
   -- line 740: range tagMap   then: SORT:internal/graph.SortTags
-  { site := { file := "internal/report/report.go", fn := "printTags", mapType := "map[string]map[string]int64", kind := .append, sink := "append:[]*internal/graph.Tag", sorted := true, returned := false },
+  { site := { file := "internal/report/report.go", fn := "printTags", mapType := "map[string]map[string]int64", kind := .append, sink := "append", sorted := true, returned := false },
     verdict := .sortedHere },
   -- line 747: range tagMap[key]   then: SORT:internal/graph.SortTags
-  { site := { file := "internal/report/report.go", fn := "printTags", mapType := "map[string]int64", kind := .append, sink := "append:[]*internal/graph.Tag", sorted := true, returned := false },
+  { site := { file := "internal/report/report.go", fn := "printTags", mapType := "map[string]int64", kind := .append, sink := "append", sorted := true, returned := false },
     verdict := .sortedHere },
   -- line 885: range sample.Label   then: SORT:sort.Strings, fmt.Fprint, strings.Join
-  { site := { file := "internal/report/report.go", fn := "printTraces", mapType := "map[string][]string", kind := .append, sink := "append:[]string", sorted := true, returned := false },
+  { site := { file := "internal/report/report.go", fn := "printTraces", mapType := "map[string][]string", kind := .append, sink := "append", sorted := true, returned := false },
     verdict := .sortedHere },
   -- line 893: range sample.NumLabel   then: SORT:sort.Strings, fmt.Fprint, strings.Join
-  { site := { file := "internal/report/report.go", fn := "printTraces", mapType := "map[string][]int64", kind := .append, sink := "append:[]string", sorted := true, returned := false },
+  { site := { file := "internal/report/report.go", fn := "printTraces", mapType := "map[string][]int64", kind := .append, sink := "append", sorted := true, returned := false },
     verdict := .sortedHere },
   -- line 549: range addrMap   then: SORT:sort.Slice, return
-  { site := { file := "internal/report/source.go", fn := "sourcePrinter.splitIntoRanges", mapType := "map[uint64]internal/report.addrInfo", kind := .append, sink := "append:[]uint64", sorted := true, returned := true },
+  { site := { file := "internal/report/source.go", fn := "sourcePrinter.splitIntoRanges", mapType := "map[uint64]internal/report.addrInfo", kind := .append, sink := "append", sorted := true, returned := true },
     verdict := .sortedHere },
   -- (splitIntoRanges also collects the addresses WITHOUT an object file; since
   -- fixes/C08-weblist-unprocessed-sorted.patch that slice is sorted as well, so its record equals the
@@ -85,25 +85,25 @@ def reviewed : List Reviewed := [
   -- verdict "order irrelevant" for that site was WRONG (found by build-C10, reproduced by the
   -- -weblist jobs of the CLI oracle).  The unsorted record is deliberately NOT in this list.)
   -- line 629: range sp.files   then: return, SORT:sort.Slice
-  { site := { file := "internal/report/source.go", fn := "sourcePrinter.generate", mapType := "map[string]*internal/report.sourceFile", kind := .append, sink := "append:[]*internal/report.sourceFile", sorted := true, returned := true },
+  { site := { file := "internal/report/source.go", fn := "sourcePrinter.generate", mapType := "map[string]*internal/report.sourceFile", kind := .append, sink := "append", sorted := true, returned := true },
     verdict := .sortedHere },
   -- line 721: range f.lines   then: SORT:sort.Ints
-  { site := { file := "internal/report/source.go", fn := "sourcePrinter.functions", mapType := "map[int][]internal/report.sourceInst", kind := .append, sink := "append:[]int", sorted := true, returned := false },
+  { site := { file := "internal/report/source.go", fn := "sourcePrinter.functions", mapType := "map[int][]internal/report.sourceInst", kind := .append, sink := "append", sorted := true, returned := false },
     verdict := .sortedHere },
   -- line 233: range bools   then: fmt.Errorf
-  { site := { file := "internal/driver/cli.go", fn := "installConfigFlags", mapType := "map[string]*bool", kind := .append, sink := "append:[]string", sorted := false, returned := false },
+  { site := { file := "internal/driver/cli.go", fn := "installConfigFlags", mapType := "map[string]*bool", kind := .append, sink := "append", sorted := false, returned := false },
     verdict := .notReportOutput "text of the usage error `conflicting options set: [...]` for mutually exclusive flags (stderr, no report is produced)" },
   -- line 270: range pprofCommands   then: SORT:sort.Strings, strings.Join
-  { site := { file := "internal/driver/commands.go", fn := "usage", mapType := "map[string]*internal/driver.command", kind := .append, sink := "append:[]string", sorted := true, returned := false },
+  { site := { file := "internal/driver/commands.go", fn := "usage", mapType := "map[string]*internal/driver.command", kind := .append, sink := "append", sorted := true, returned := false },
     verdict := .sortedHere },
   -- line 287: range configFieldMap   then: return
-  { site := { file := "internal/driver/config.go", fn := "completeConfig", mapType := "map[string]internal/driver.configField", kind := .append, sink := "append:[]string", sorted := false, returned := true },
+  { site := { file := "internal/driver/config.go", fn := "completeConfig", mapType := "map[string]internal/driver.configField", kind := .append, sink := "append", sorted := false, returned := true },
     verdict := .orderIrrelevant "interactive completion: the only caller (matchVariableOrCommand) uses the result when the combined list has exactly one element" },
   -- line 268: range ms   then: return
-  { site := { file := "internal/driver/fetch.go", fn := "combineProfiles", mapType := "map[string][]struct{Source string; Start uint64}", kind := .append, sink := "append:[]struct{Source string; Start uint64} (slot keyed by the iteration variable)", sorted := false, returned := true },
+  { site := { file := "internal/driver/fetch.go", fn := "combineProfiles", mapType := "map[string][]struct{Source string; Start uint64}", kind := .append, sink := "append (slot keyed by the iteration variable)", sorted := false, returned := true },
     verdict := .orderIrrelevant "per-key slots; the outer loop runs over the slice of sources in command-line order" },
   -- line 384: range pprofCommands   then: return
-  { site := { file := "internal/driver/interactive.go", fn := "matchVariableOrCommand", mapType := "map[string]*internal/driver.command", kind := .append, sink := "append:[]string", sorted := false, returned := true },
+  { site := { file := "internal/driver/interactive.go", fn := "matchVariableOrCommand", mapType := "map[string]*internal/driver.command", kind := .append, sink := "append", sorted := false, returned := true },
     verdict := .orderIrrelevant "the result is used only when there is exactly one match" }
 ]
 
